@@ -3,7 +3,7 @@
 # then (unless --confirm-only) run the checks against a patched copy.
 CO=0; [ "$1" = "--confirm-only" ] && { CO=1; shift; }
 P=$1; shift
-for m in $(ls /tmp/mut/$P-out 2>/dev/null); do
+for m in m1 m2; do
   [ -f /tmp/mut/$P-out/$m/patch.diff ] || continue
   [ -f /verif/seeded/$P-$m/confirm.json ] || /verif/tools/confirm_seed.sh $P $m
   [ $CO = 1 ] && continue
